@@ -315,4 +315,30 @@ theorem linkedE_ascending (db : DB) (hh : Heights db) (l : List Entry) (hl : Lin
       · exact hab
       · have := (List.pairwise_cons.mp iht).1 x hx; omega
 
+theorem linkedE_append_right (A B : List Entry) (h : LinkedE (A ++ B)) : LinkedE B := by
+  induction A with
+  | nil => exact h
+  | cons a t ih =>
+    apply ih
+    cases t with
+    | nil =>
+      cases B with
+      | nil => trivial
+      | cons b r => exact h.2
+    | cons a' t' => exact h.2
+
+theorem linkedE_append_head (A : List Entry) (z : Entry) (R : List Entry) (a : Entry)
+    (h : LinkedE (A ++ z :: R)) (ha : A.getLast? = some a) : z.blk.parent = a.blk.id := by
+  induction A with
+  | nil => cases ha
+  | cons x t ih =>
+    cases t with
+    | nil =>
+      simp only [List.getLast?_singleton, Option.some.injEq] at ha
+      subst ha
+      exact h.1
+    | cons y t' =>
+      rw [List.getLast?_cons_cons] at ha
+      exact ih h.2 ha
+
 end BstreamVerif.Seam
